@@ -252,3 +252,16 @@ Example avg_time_premises :
   let d := get_data (run (init 490000 (24 * ms_hour) true) h) in
   d_num d = 8 /\ d_avg d = 1500 /\ d_num_f d = 3.
 Proof. vm_compute. repeat split. Qed.
+
+(** * Why the theorems ask for hour ids of at least 8762 *)
+
+(** With an hour id below the limit, [id - limit - 1] wraps in uint32 and New
+    deletes every bucket, the one Close has just written included: a restart
+    in the same hour loses the hour (Config.UnitID is a test hook; real hour
+    ids are about 5e5). *)
+Example small_hour_id_wraps :
+  let s := run (init 5 (24 * ms_hour) true) ex_all5 in
+  rep CTotal s = 5 /\ rep CTotal (restart s 5) = 0 /\
+  let s' := run (init 26 (24 * ms_hour) true) ex_all5 in
+  rep CTotal (restart s' 26) = 5.
+Proof. vm_compute. repeat split. Qed.
